@@ -786,4 +786,35 @@ theorem portions_partition (out : List TraceOut)
   exact h
 end
 
+/-- **when recency tells the described traces apart, the choice is unique**: two choices of the `n` most recent have the
+    same members -/
+theorem topN_unique (rec : Bytes → Int) (P : Bytes → Prop) (n : Nat) (K1 K2 : List Bytes)
+    (h1 : IsTopN rec P n K1) (h2 : IsTopN rec P n K2) (hinj : ∀ a b, P a → P b → rec a = rec b → a = b) :
+    ∀ t, t ∈ K1 ↔ t ∈ K2 := by
+  have key : ∀ (A B : List Bytes), IsTopN rec P n A → IsTopN rec P n B → ∀ t ∈ A, t ∈ B := by
+    intro A B hA hB t htA
+    by_cases htB : t ∈ B
+    · exact htB
+    · exfalso
+      obtain ⟨hBfull, hBle⟩ := hB.most t (hA.sound t htA) htB
+      -- `B` is full, `A` has at most as many members and one outside `B`: some member of `B` is outside `A`
+      have : ∃ b, b ∈ B ∧ b ∉ A := by
+        by_cases h : ∃ b, b ∈ B ∧ b ∉ A
+        · exact h
+        · exfalso
+          have hall : ∀ b ∈ B, b ∈ A := by
+            intro b hb
+            by_cases hb' : b ∈ A
+            · exact hb'
+            · exact absurd ⟨b, hb, hb'⟩ h
+          have := nodup_eq_length_subset B A hB.nodup (by have := hA.atMost; omega) hall t htA
+          exact htB this
+      obtain ⟨b, hbB, hbA⟩ := this
+      obtain ⟨_, hAle⟩ := hA.most b (hB.sound b hbB) hbA
+      have e := Int.le_antisymm (hAle t htA) (hBle b hbB)
+      have := hinj b t (hB.sound b hbB) (hA.sound t htA) e
+      exact hbA (this ▸ htA)
+  intro t
+  exact ⟨key K1 K2 h1 h2 t, key K2 K1 h2 h1 t⟩
+
 end Qryn.TraceQL
